@@ -1,9 +1,171 @@
 import Driver.Util
-open Lean
+import Torf.Spec.Attrs
+open Lean Torf Torf.Attrs
 namespace Driver.C09
 
-/-- ops of property C09: `c09.<name>` -/
-def handle (op : String) (_j : Json) : Except String Json :=
-  throw s!"unknown op {op}"
+/-! ops of property C09: `c09.run` (a history of attribute operations), `c09.calc` -/
+
+def getPath (j : Json) : Except String Path := do
+  let a ← j.getArr?
+  a.toList.mapM fun x => x.getStr?
+
+def getOptPath (j : Json) (k : String) : Except String (Option Path) :=
+  match j.getObjVal? k with
+  | .ok Json.null => pure none
+  | .ok v => some <$> getPath v
+  | .error _ => pure none
+
+def getPaths (j : Json) (k : String) : Except String (List Path) := do
+  let a ← getArr j k
+  a.mapM getPath
+
+def getFile (j : Json) : Except String (Path × Nat) := do
+  let a ← j.getArr?
+  match a.toList with
+  | [p, n] => do
+    let p ← getPath p
+    let n ← n.getNat?
+    pure (p, n)
+  | _ => throw "file: [path, size] expected"
+
+def getFiles (j : Json) (k : String) : Except String (List (Path × Nat)) := do
+  let a ← getArr j k
+  a.mapM getFile
+
+def getOptInt (j : Json) (k : String) : Except String (Option Int) :=
+  match j.getObjVal? k with
+  | .ok Json.null => pure none
+  | .ok v => some <$> v.getInt?
+  | .error _ => pure none
+
+def getOptStr (j : Json) (k : String) : Except String (Option String) :=
+  match j.getObjVal? k with
+  | .ok Json.null => pure none
+  | .ok v => some <$> v.getStr?
+  | .error _ => pure none
+
+def getGlob (j : Json) : Except String Glob := do
+  let a ← j.getArr?
+  match a.toList with
+  | [k, s] => do
+    let k ← k.getStr?
+    let s ← s.getStr?
+    if k == "suffix" then pure (.suffix s) else if k == "infix" then pure (.infix s)
+    else throw s!"glob kind {k}"
+  | _ => throw "glob: [kind, s] expected"
+
+def getGlobList (j : Json) (k : String) : Except String (List Glob) := do
+  let a ← getArr j k
+  a.mapM getGlob
+
+def getOp (j : Json) : Except String Op := do
+  let k ← getStr j "k"
+  match k with
+  | "setPath" => .setPath <$> getOptPath j "p"
+  | "setFiles" => .setFiles <$> getFiles j "fs"
+  | "filesDel" => .filesDel <$> getNat j "i"
+  | "filesAppend" => do let f ← j.getObjVal? "f"; .filesAppend <$> getFile f
+  | "filesClear" => pure .filesClear
+  | "setFilepaths" => .setFilepaths <$> getPaths j "ps"
+  | "fpDel" => .fpDel <$> getNat j "i"
+  | "fpAppend" => do let p ← j.getObjVal? "p"; .fpAppend <$> getPath p
+  | "fpClear" => pure .fpClear
+  | "globSet" => do pure (.globSet (← getBool j "inc") (← getGlobList j "gs"))
+  | "globAppend" => do let g ← j.getObjVal? "g"; pure (.globAppend (← getBool j "inc") (← getGlob g))
+  | "globDel" => do pure (.globDel (← getBool j "inc") (← getNat j "i"))
+  | "globClear" => .globClear <$> getBool j "inc"
+  | "setName" => .setName <$> getOptStr j "n"
+  | "setPieceSize" => .setPieceSize <$> getOptInt j "v"
+  | "setMin" => .setMin <$> getOptInt j "v"
+  | "setMax" => .setMax <$> getOptInt j "v"
+  | "generate" => pure .generate
+  | "setComment" => .setComment <$> getOptStr j "c"
+  | _ => throw s!"unknown attribute op {k}"
+
+def getEnv (j : Json) : Except String Env := do
+  let e ← j.getObjVal? "env"
+  let files ← getFiles e "files"
+  let dirs ← getPaths e "dirs"
+  pure { files := files, dirs := dirs }
+
+def jpath (p : Path) : Json := jarr (p.map jstr)
+
+def errName : Err → String
+  | .pieceSize => "PieceSizeError"
+  | .path => "PathError"
+  | .commonPath => "CommonPathError"
+  | .read => "ReadError"
+  | .runtime => "RuntimeError"
+  | .internal w => "internal:" ++ w
+
+def resJson : Res → Json
+  | .ok => jstr "ok"
+  | .err k => jstr (errName k)
+
+def globJson : Glob → Json
+  | .suffix s => jarr [jstr "suffix", jstr s]
+  | .infix s => jarr [jstr "infix", jstr s]
+
+/-- the projection of a state that is compared with the real `Torrent` -/
+def stateJson (env : Env) (s : St) : Json :=
+  jobj [("name", jopt jstr s.name),
+        ("mode", jnat (mode s)),
+        ("length", match s.content with | .single n => jnat n | _ => Json.null),
+        ("files", match s.content with
+                  | .multi fs => jarr (fs.map fun f => jarr [jpath f.path, jnat f.size])
+                  | _ => Json.null),
+        ("path", jopt jpath s.path),
+        ("pl", jopt jnat s.pl),
+        ("pieces", jopt (fun g => jnat g.count) s.pieces),
+        ("pmin", jnat s.pmin), ("pmax", jnat s.pmax),
+        ("exGlobs", jarr (s.exGlobs.map globJson)), ("inGlobs", jarr (s.inGlobs.map globJson)),
+        ("size", jnat (size s)), ("numPieces", jnat (numPieces s)),
+        ("listed", jarr ((filesOf s).map fun f => jarr [jpath f.1, jnat f.2])),
+        ("filepaths", jarr ((filepathsOf s).map jpath)),
+        ("ready", jbool (isReady env s)),
+        ("comment", jopt jstr s.comment)]
+
+/-- `globSet` models `lst[:] = value` only for duplicate-free values disjoint from the current
+    list (outside that, `MonitoredList.__setitem__` belongs to C16) -/
+def wellFormed (s : St) : Op → Bool
+  | .globSet inc gs => gs.all (fun g => !(getGlobs s inc).contains g) && gs.eraseDups.length == gs.length
+  | _ => true
+
+/-- op `c09.run` : {env, ops} ↦ per step: projected model state, outcome, `hyp` (all operations so
+    far satisfy `OpOk`), `inv` (the executable specification `Inv` on the model state) -/
+def runOps (j : Json) : Except String Json := do
+  let env ← getEnv j
+  let ops ← (← getArr j "ops").mapM getOp
+  let (_, _, out) := ops.foldl (init := (Attrs.init, true, ([] : List Json)))
+    fun (acc : St × Bool × List Json) op =>
+      let (s, hyp, out) := acc
+      let hyp' := hyp && decide (OpOk s op)
+      let (s', r) := apply env s op
+      (s', hyp', jobj [("state", stateJson env s'), ("res", resJson r), ("hyp", jbool hyp'),
+                      ("opOk", jbool (decide (OpOk s op))), ("wf", jbool (wellFormed s op)),
+                      ("inv", jbool (decide (Inv s')))] :: out)
+  return jobj [("steps", jarr out.reverse), ("init", stateJson env Attrs.init),
+               ("initInv", jbool (decide (Inv Attrs.init)))]
+
+/-- op `c09.calc` : {size, min, max} ↦ `calculate_piece_size(size, min, max)` on integers -/
+def calcOp (j : Json) : Except String Json := do
+  let size ← getNat j "size"
+  let mn ← getNat j "min"
+  let mx ← getNat j "max"
+  let r := calcPieceSize size mn mx
+  let raw := rawPieceSize size
+  -- executable spec: power of two or a bound; within bounds; multiple of 16 KiB
+  let isPow2 := (List.range 64).any fun e => 2 ^ e == r
+  let spec := (isPow2 || r == mn || r == mx) &&
+              (!(mn ≤ mx) || (mn ≤ r && r ≤ mx)) &&
+              (!(mn ≤ mx && mn % 16384 == 0 && mx % 16384 == 0 && 0 < mn) || (r % 16384 == 0 && 0 < r))
+  return jobj [("model", jnat r), ("raw", jnat raw), ("maxPieces", jnat (maxPieces size)),
+               ("spec", jbool spec), ("hyp", jbool (0 < size))]
+
+def handle (op : String) (j : Json) : Except String Json :=
+  match op with
+  | "c09.run" => runOps j
+  | "c09.calc" => calcOp j
+  | _ => throw s!"unknown op {op}"
 
 end Driver.C09
